@@ -20,7 +20,7 @@ import (
 func TestMain(m *testing.M) { fw.Main(m) }
 
 type procSpec struct {
-	Kind string `json:"kind"` // reader | writer | sfu | rollback | creator
+	Kind string `json:"kind"` // reader | writer | rmw | sfu | rollback | creator
 	Txns int    `json:"txns"`
 }
 
@@ -56,7 +56,7 @@ func genCase(t *rapid.T) schedCase {
 			p.Kind = "creator"
 			p.Txns = 1
 		} else {
-			p.Kind = []string{"writer", "writer", "reader", "sfu", "rollback", "reader"}[fw.Weighted(t, "kind", []int{30, 10, 25, 15, 10, 10})]
+			p.Kind = []string{"writer", "rmw", "reader", "sfu", "rollback", "reader"}[fw.Weighted(t, "kind", []int{25, 20, 20, 15, 10, 10})]
 		}
 		c.Procs = append(c.Procs, p)
 	}
@@ -64,7 +64,7 @@ func genCase(t *rapid.T) schedCase {
 		// at least one writer
 		hasW := false
 		for _, p := range c.Procs {
-			if p.Kind == "writer" || p.Kind == "sfu" {
+			if p.Kind == "writer" || p.Kind == "sfu" || p.Kind == "rmw" {
 				hasW = true
 			}
 		}
@@ -230,6 +230,13 @@ func checkCase(c schedCase) (fw.Outcome, *fw.Violation) {
 					}
 				case "sfu":
 					ok = exec("SELECT n FROM c FOR UPDATE") && exec("UPDATE c SET n = n + 1") && exec("COMMIT")
+					if ok {
+						r.commits++
+					}
+				case "rmw":
+					// read-modify-write in one transaction: a plain read first, then the change (which must
+					// work on the current file, not on the earlier unlocked read)
+					ok = exec("SELECT n FROM c") && exec("UPDATE c SET n = n + 1") && exec("COMMIT")
 					if ok {
 						r.commits++
 					}
@@ -422,7 +429,7 @@ func TestC09Schedules(t *testing.T) {
 	fw.Run(t, fw.Spec[schedCase]{
 		ID: "C09", Name: "schedules", Quick: 2400, Thorough: 60000,
 		Gen: genCase, Check: checkCase,
-		Rule: "2-4 virtual processes (goroutines with their own csvq Session/Transaction/Processor on one directory): readers (SELECT n; COMMIT), writers (UPDATE n=n+1; COMMIT), SELECT FOR UPDATE writers, rolled-back writers, or concurrent CREATE TABLE of one name; every file-system step of lib/file and Transaction.Commit is a yield point and a baton scheduler runs exactly one process between two points; the drawn value is the schedule (bursts of picks, then round-robin) plus wait-timeout events (the processes' context expires at a drawn step instead of by wall-clock). History invariants: no process gets the table for update while another holds it for update or reading, none for reading while one holds it for update; final counter = number of successful COMMITs; each read value lies in the committed range of its read window; only timed-out processes fail and only with the lock-timeout/context error; no control files at the end; one creator at most. non-trivial = a second process takes a step inside another's lock-acquisition window; distinct by the full (process, point) trace",
+		Rule: "2-4 virtual processes (goroutines with their own csvq Session/Transaction/Processor on one directory): readers (SELECT n; COMMIT), writers (UPDATE n=n+1; COMMIT), read-then-write transactions (SELECT n; UPDATE; COMMIT), SELECT FOR UPDATE writers, rolled-back writers, or concurrent CREATE TABLE of one name; every file-system step of lib/file and Transaction.Commit is a yield point and a baton scheduler runs exactly one process between two points; the drawn value is the schedule (bursts of picks, then round-robin) plus wait-timeout events (the processes' context expires at a drawn step instead of by wall-clock). History invariants: no process gets the table for update while another holds it for update or reading, none for reading while one holds it for update; final counter = number of successful COMMITs; each read value lies in the committed range of its read window; only timed-out processes fail and only with the lock-timeout/context error; no control files at the end; one creator at most. non-trivial = a second process takes a step inside another's lock-acquisition window; distinct by the full (process, point) trace",
 		Assumptions: []string{"go-file's flock retry loop is not hooked: a process blocked there is detected by a 3 s watchdog and the others proceed (counted in measured.stalls)",
 			"interleavings are owned at the hooked steps only; steps inside one syscall are atomic"},
 	})
